@@ -320,6 +320,32 @@ Check C14_old_profile_whitespace_refuted :
   old_relation_from_str dv_parse (old_print_relation dv_print (mkRel [97%N] None None None [[]; []])) = Err 8%N.
 Print Assumptions C14_old_profile_whitespace_refuted.
 
+(* audit A4 — the reader of /repo 5517d72 (RelLossy.oldnl_...) rejects a line break inside a relation,
+   which the lossless reader accepts (a folded relationship field); the patched reader takes it *)
+Theorem C14_old_newline_refuted :
+  let s := [97; 10; 32; 40; 62; 61; 32; 49; 41]%N in                                   (* "a\n (>= 1)" *)
+  (exists t, RelParse.relations_from_str s = Ok t /\ text t = s) /\
+  oldnl_relation_from_str dv_parse s = Err 9%N /\
+  oldnl_relations_from_str dv_parse (s ++ [44; 32; 98]%N) = Err 9%N /\
+  oldnl_relation_from_str dv_parse [97; 32; 40; 62; 61; 10; 32; 49; 41]%N = Err 4%N /\   (* "a (>=\n 1)" *)
+  oldnl_relation_from_str dv_parse [97; 32; 91; 10; 32; 98; 93]%N = Err 7%N /\           (* "a [\n b]" *)
+  oldnl_relation_from_str dv_parse [97; 32; 60; 10; 32; 98; 62]%N = Err 8%N /\           (* "a <\n b>" *)
+  relation_from_str dv_parse s = Ok (mkRel [97%N] None None (Some (VC_ge, mkDv None [49%N] None)) []).
+Proof.
+  cbv zeta. destruct oldnl_newline_refuted as (A & B & C & D & _ & F). destruct newline_fixed as (G & _).
+  split; [|repeat split; assumption]. vm_compute. eexists. split; reflexivity.
+Qed.
+Check C14_old_newline_refuted :
+  let s := [97; 10; 32; 40; 62; 61; 32; 49; 41]%N in
+  (exists t, RelParse.relations_from_str s = Ok t /\ text t = s) /\
+  oldnl_relation_from_str dv_parse s = Err 9%N /\
+  oldnl_relations_from_str dv_parse (s ++ [44; 32; 98]%N) = Err 9%N /\
+  oldnl_relation_from_str dv_parse [97; 32; 40; 62; 61; 10; 32; 49; 41]%N = Err 4%N /\
+  oldnl_relation_from_str dv_parse [97; 32; 91; 10; 32; 98; 93]%N = Err 7%N /\
+  oldnl_relation_from_str dv_parse [97; 32; 60; 10; 32; 98; 62]%N = Err 8%N /\
+  relation_from_str dv_parse s = Ok (mkRel [97%N] None None (Some (VC_ge, mkDv None [49%N] None)) []).
+Print Assumptions C14_old_newline_refuted.
+
 (* ---------------------------------------------------------------- non-vacuity *)
 (* foo:any (>= 1:2.0~rc1-3) [amd64 !i386] <!nocheck cross> <stage1> *)
 Definition ex_full : relation dversion :=
@@ -385,6 +411,13 @@ Proof.
   split; [reflexivity|]. split; [apply RelConvAllP.read_as_lossy_all; reflexivity|].
   cbv zeta. split; [reflexivity|]. split; [reflexivity|apply RelConvAllP.read_as_lossy_all; reflexivity].
 Qed.
+Example C14_ex_folded :                         (* a folded field: line breaks wherever blanks may be, also after ':' *)
+  relations_from_str dv_parse
+    [102; 111; 111; 10; 32; 40; 62; 61; 10; 32; 49; 10; 32; 41; 10; 32; 91; 10; 32; 97; 10; 32; 33; 98; 10; 32; 93; 10; 32; 60; 10; 32; 33; 120; 10; 32; 121; 10; 32; 62; 10; 32; 124; 32; 98; 32; 58; 10; 32; 97; 110; 121; 44; 10; 32; 99]%N
+  = Ok [[mkRel [102; 111; 111]%N None (Some [[97%N]; [33; 98]%N]) (Some (VC_ge, mkDv None [49%N] None)) [[Disabled [120%N]; Enabled [121%N]]];
+         mkRel [98%N] (Some [97; 110; 121]%N) None None []];
+        [mkRel [99%N] None None None []]].
+Proof. vm_compute. reflexivity. Qed.
 Example C14_ex_errors :                         (* both outcomes of the totality theorems occur *)
   relation_from_str dv_parse [97; 32; 40]%N = Err 3%N /\                        (* "a (" *)
   relations_from_str dv_parse [97; 124]%N = Err 10%N /\                          (* "a|" *)
